@@ -9,7 +9,7 @@ Section Ind.
   Variable P : jtext -> Prop.
   Hypothesis HStr : forall chars, P (JStr chars).
   Hypothesis HArr : forall items, Forall P items -> P (JArr items).
-  Hypothesis HObjG : forall f wr k, P (JObj f wr (JBGlyph k)).
+  Hypothesis HObjG : forall f wr k d, P (JObj f wr (JBGlyph k d)).
   Hypothesis HObjT : forall f wr t, P t -> P (JObj f wr (JBText t)).
   Hypothesis HObjN : forall f wr, P (JObj f wr JBNone).
 
@@ -22,7 +22,7 @@ Section Ind.
                        | [] => Forall_nil _
                        | x :: r => Forall_cons x (jtext_induction x) (go r)
                        end) items)
-    | JObj f wr (JBGlyph k) => HObjG f wr k
+    | JObj f wr (JBGlyph k d) => HObjG f wr k d
     | JObj f wr (JBText t') => HObjT f wr t' (jtext_induction t')
     | JObj f wr JBNone => HObjN f wr
     end.
@@ -60,7 +60,7 @@ Fixpoint jt_kinds (t : jtext) {struct t} : list kind :=
   | JStr chars => map KChar chars
   | JArr items => (fix go (l : list jtext) : list kind :=
                      match l with [] => [] | x :: r => jt_kinds x ++ go r end) items
-  | JObj _ _ (JBGlyph k) => [k]
+  | JObj _ _ (JBGlyph k _) => [k]
   | JObj _ _ (JBText t') => jt_kinds t'
   | JObj _ _ JBNone => []
   end.
